@@ -1,7 +1,8 @@
 #!/bin/sh
-# usage: tools/run_all.sh [quick|thorough] [seed] [jobs]   — runs every claimed check, prints one line each
+# usage: tools/run_all.sh [quick|thorough] [seed] [jobs]   — runs every claimed check of this checkout, one line each
 tier="${1:-quick}"; seed="${2:-20260929}"; jobs="${3:-4}"
-cd /verif || exit 2
+here="$(cd "$(dirname "$0")/.." && pwd)"
+cd "$here" || exit 2
 ids=$(/venv/bin/python -c "import json;print(' '.join(c['property_id'] for c in json.load(open('MANIFEST.json'))['checks']))")
-mkdir -p /work/runall
-for p in $ids; do echo $p; done | xargs -P "$jobs" -I{} sh -c "VERIF_SEED=$seed ./check {} --tier $tier > /work/runall/{}.out 2>&1; echo {} rc=\$? \$(grep -c '^VIOLATION' /work/runall/{}.out) violations, \$(grep -c '^KNOWN-FINDING' /work/runall/{}.out) known; grep '^\[{}\]' /work/runall/{}.out | cut -c1-220"
+out="$here/.runall"; mkdir -p "$out"
+for p in $ids; do echo $p; done | xargs -P "$jobs" -I{} sh -c "VERIF_SEED=$seed ./check {} --tier $tier > $out/{}.out 2>&1; echo {} seed=$seed rc=\$? \$(grep -c '^VIOLATION' $out/{}.out) violations, \$(grep -c '^KNOWN-FINDING' $out/{}.out) known; grep '^\[{}\]' $out/{}.out | cut -c1-220"
